@@ -116,19 +116,16 @@ class CatToNumTransform(FittableBaseTransform):
             tf.feat_dict[stype.categorical],
             NAStrategy.MOST_FREQUENT,
         )
-        if not torch.is_floating_point(tf.y) and tf.y.max() > 1:
-            num_rows, num_cols = tf.feat_dict[stype.categorical].shape
-            transformed_tensor = torch.zeros(
-                num_rows,
-                num_cols * (self.num_classes - 1),
-                dtype=torch.float32,
-                device=tf.device,
-            )
-        else:
-            transformed_tensor = torch.zeros_like(
-                tf.feat_dict[stype.categorical],
-                dtype=torch.float32,
-            )
+        # NOTE: The output width is determined by the number of classes seen
+        # during `fit`, not by the labels of the frame being transformed
+        # (which may be missing or only contain a subset of the classes).
+        num_rows, num_cols = tf.feat_dict[stype.categorical].shape
+        transformed_tensor = torch.zeros(
+            num_rows,
+            num_cols * (self.num_classes - 1),
+            dtype=torch.float32,
+            device=tf.device,
+        )
         target_mean = self.target_mean.to(tf.device)
         for i in range(len(tf.col_names_dict[stype.categorical])):
             col_name = tf.col_names_dict[stype.categorical][i]
